@@ -51,7 +51,7 @@ const char* device_state_as_string(enum DeviceState s) { (void)s; return "?"; }
 
 /* ------------------------------------------------------------------ script */
 #define MAXS 256
-static struct { struct ImageShape shape; int drop; } script[MAXS];
+static struct { struct ImageShape shape; int drop; int flip; } script[MAXS];
 static int nscript = 0;
 static long long client_j[4096];
 static int nclient = -1;
@@ -75,6 +75,14 @@ enum DeviceStatusCode camera_get_image_shape(const struct Camera* c, struct Imag
     (void)c;
     vs_point("dev:get_image_shape");
     *shape = script[cam_calls % nscript].shape;
+    if (script[cam_calls % nscript].flip) {
+        /* the camera is re-configured between this query and the exposure of the frame: what it reports here is the
+           transposed shape (same byte count); the frame itself comes with the shape of the script */
+        uint32_t w = shape->dims.width;
+        shape->dims.width = shape->dims.height;
+        shape->dims.height = w;
+        shape->strides.height = (int64_t)shape->dims.channels * shape->dims.width;
+    }
     return Device_Ok;
 }
 enum DeviceStatusCode camera_get_frame(struct Camera* c, void* im, size_t* nbytes, struct ImageInfo* info)
@@ -194,17 +202,18 @@ int main(void)
     setvbuf(stdout, 0, _IOLBF, 1 << 16);
     signal(SIGPROF, on_alarm);
     while (fgets(line, sizeof line, stdin)) {
-        long long a[6];
+        long long a[7];
         if (sscanf(line, "CAP %lld", &cap) == 1) continue;
         if (sscanf(line, "FCAP %lld", &fcap) == 1) continue;
         if (sscanf(line, "DELAY %lf", &delay) == 1) continue;
         if (sscanf(line, "FILTER %lld", &window) == 1) continue;
         if (sscanf(line, "FRAMES %lld", &frames) == 1) continue;
         if (sscanf(line, "SEED %lld", &seed) == 1) continue;
-        if (sscanf(line, "SHAPE %lld %lld %lld %lld %lld %lld", &a[0], &a[1], &a[2], &a[3], &a[4], &a[5]) == 6 && nscript < MAXS) {
+        a[6] = 0;
+        if (sscanf(line, "SHAPE %lld %lld %lld %lld %lld %lld %lld", &a[0], &a[1], &a[2], &a[3], &a[4], &a[5], &a[6]) >= 6 && nscript < MAXS) {
             struct ImageShape sh = { .dims = { (uint32_t)a[0], (uint32_t)a[1], (uint32_t)a[2], (uint32_t)a[3] },
                                      .strides = { 1, a[0], a[0] * a[1], a[0] * a[1] * a[2] }, .type = (enum SampleType)(int)a[4] };
-            script[nscript].shape = sh; script[nscript].drop = (int)a[5]; ++nscript;
+            script[nscript].shape = sh; script[nscript].drop = (int)a[5]; script[nscript].flip = (int)a[6]; ++nscript;
             continue;
         }
         if (!strncmp(line, "CLIENT", 6) || !strncmp(line, "SCHED", 5)) {
